@@ -23,10 +23,15 @@ var wFileName = map[*os.File]string{}
 var wFilePipe = map[*os.File]*wPipe{} // os.Pipe ends
 var wEvents []string                  // "listen:<path>", "print", ... in order
 
+var wMadeDirs = map[string]bool{} // directories made by MkdirTemp (a file cannot be created in one that was removed)
+
 //verif:model os.CreateTemp
 func mCreateTemp(dir, pattern string) (*os.File, error) {
 	if dir == "" {
 		dir = "/tmp"
+	}
+	if wMadeDirs[dir] && !wFiles[dir] {
+		return nil, &os.PathError{Op: "open", Path: dir + "/" + pattern, Err: os.ErrNotExist}
 	}
 	wTempN++
 	name := fmt.Sprintf("%s/%s%d", dir, pattern, wTempN)
@@ -44,6 +49,7 @@ func mMkdirTemp(dir, pattern string) (string, error) {
 	wTempN++
 	name := fmt.Sprintf("%s/%s%d", dir, pattern, wTempN)
 	wFiles[name] = true
+	wMadeDirs[name] = true
 	return name, nil
 }
 
@@ -203,6 +209,7 @@ func (l *wListener) Close() error {
 	if l.closed {
 		return net.ErrClosed
 	}
+	wProcTouch(l.owner)
 	l.closed = true
 	close(l.closeCh)
 	wTrace("close listener " + l.addr.addr)
